@@ -27,10 +27,11 @@ Hash(c) == c.n * 7 + (c.ps + 1) * 13 + (IF c.fill = "junk" THEN 31 ELSE 0) + Sum
 
 Full == Lattice({1, 2, 3, 5, 8, 16}, {0, 2, 4, 6, 8}, {-6, 0, 6}, 1..8, {6, 12}, BOOLEAN,
                 Methods, {"f64"})
-GEN_Cases == {c \in Full : Hash(c) % GEN_MOD = GEN_SLICE % GEN_MOD}
-             \cup (IF GEN_MOD32 = 0 THEN {}
-                   ELSE {[c EXCEPT !.dt = "f32"] :
-                         c \in {x \in Full : Hash(x) % GEN_MOD32 = GEN_SLICE % GEN_MOD32}})
+GEN_Cases == LET F == Full
+             IN {c \in F : Hash(c) % GEN_MOD = GEN_SLICE % GEN_MOD}
+                \cup (IF GEN_MOD32 = 0 THEN {}
+                      ELSE {[c EXCEPT !.dt = "f32"] :
+                            c \in {x \in F : Hash(x) % GEN_MOD32 = GEN_SLICE % GEN_MOD32}})
 
 SetToSeq(S) == [i \in 1..Cardinality(S) |-> CHOOSE x \in S : Cardinality({y \in S : y < x}) = i - 1]
 
@@ -40,7 +41,7 @@ Derived ==
    branch |-> IF case.method = "eigh" THEN "eigh" ELSE IF case.n = 1 THEN "size1" ELSE "loop",
    floorExp |-> FloorExp(case), maxTries |-> MaxTries, escalation |-> Escalation,
    \* where the estimate scaling the ridge can be read from / must lie
-   lamSource |-> IF ~case.rel THEN "one" ELSE IF case.method = "eigh" THEN "hidden" ELSE "reported_f32",
+   lamSource |-> IF case.method = "eigh" THEN "hidden" ELSE IF ~case.rel THEN "one" ELSE "reported_f32",
    lamBelowFloor |-> LamMaxBelowFloor(case),
    retriesFixed |-> IF case.method = "eigh" \/ case.n = 1 THEN 0 ELSE -1,
    figure |-> CASE case.method = "eigh" -> "eigendecomposition_residual"
